@@ -1,13 +1,13 @@
 SPECIFICATION Spec
 CONSTANTS
-  Addr <- Addr2
-  Gaps <- GapsJitter2
+  Addr <- Addr1
+  Gaps <- GapsJitter1
   T = 10
   D = 1
-  MaxEvents = 3
-  MaxFails = 2
+  MaxEvents = 2
+  MaxFails = 3
   Backoff = TRUE
-  Closed = FALSE
+  Closed = TRUE
   ObserveCb = FALSE
   TrackQuiet = FALSE
   UnitMs = 1000
